@@ -511,11 +511,14 @@ where
     let state = ParserState::new(input);
 
     match f(state) {
-        Ok(state) => {
+        // `optional`, `repeat`, a negative `lookahead` or a plain `or_else` turn the `Err` of a
+        // call refused by the call limit into `Ok`; the token queue is then incomplete, so a
+        // reached limit is reported on this path as well.
+        Ok(state) if !state.reached_call_limit() => {
             let len = state.queue.len();
             Ok(new(Rc::new(state.queue), input, None, 0, len))
         }
-        Err(mut state) => {
+        Ok(mut state) | Err(mut state) => {
             let variant = if state.reached_call_limit() {
                 ErrorVariant::CustomError {
                     message: "call limit reached".to_owned(),
